@@ -1138,7 +1138,7 @@ func (cg *grant) ReallocMemory(types libmem.TypeMask) error {
 	}
 
 	cg.SetMemoryZone(zone)
-	if opt.PinMemory {
+	if opt.PinMemory && cg.MemoryType() != memoryPreserve {
 		cg.container.SetCpusetMems(zone.MemsetString())
 	}
 
@@ -1149,7 +1149,7 @@ func (cg *grant) ReallocMemory(types libmem.TypeMask) error {
 		} else {
 			log.Info("updating memory allocation for %s to %s", g.GetContainer().PrettyName(), z)
 			g.SetMemoryZone(z)
-			if opt.PinMemory {
+			if opt.PinMemory && g.MemoryType() != memoryPreserve {
 				g.GetContainer().SetCpusetMems(z.MemsetString())
 			}
 		}
